@@ -202,6 +202,13 @@ theorem C08_exit_releases_waiters (W : World) (s s' : State) (hm : s.mon = .exit
   · intro hcb
     simp only [logAdd_cb, hcb]
 
+/-- F6e: the stacking-error branch of the monitor's update handling cannot panic on the nil interface that
+`compose` returns next to its error (every type assertion there has the two-value form).  The model's `.gotValue`
+step goes from a failed stack straight to the submission of the error event; this is the part of that step the
+model does not exhibit. -/
+theorem C08_stack_error_branch_cannot_panic : Facts.stackErrAssertCommaOk = true := by
+  decide
+
 /-- regenerated capacities (F3) -/
 theorem C08_capacities : Facts.capCbch = 64 ∧ Facts.capMonCtl = 3 ∧ Facts.capEvents = 1 := by
   decide
